@@ -24,17 +24,17 @@ class Determinism(SysTarget):
     def compare(self, sb, case, cfg, exp, used, state):
         plats = sorted(case["platforms"])
         views = []
-        for seed, order in ((0, plats), (1, list(reversed(plats))), (4242, plats[1:] + plats[:1])):
+        for seed, order, sd in ((0, plats, "forward"), (1, list(reversed(plats)), "reverse"), (4242, plats[1:] + plats[:1], "forward")):
             toml = cli.write_inputs(sb, case, cfg_order=order, tag=f"_{seed}")
-            rc, out, err = cli.run("codebasin", ["-R", "summary", "-R", "duplicates", toml], sb.root, hashseed=seed)
+            rc, out, err = cli.run("codebasin", ["-R", "summary", "-R", "duplicates", toml], sb.root, hashseed=seed, scandir=sd)
             if rc != 0:
                 return {"expected": "codebasin succeeds", "observed": err[-300:], "klass": "determinism:fails"}
             rows, total, metrics = cli.parse_summary(out)
-            rc, tout, err = cli.run("codebasin.tree", [toml], sb.root, hashseed=seed)
+            rc, tout, err = cli.run("codebasin.tree", [toml], sb.root, hashseed=seed, scandir=sd)
             trows = sorted((r["name"].split()[-1], r["sloc"], r["cov"], r["avg"]) for r in cli.parse_tree(tout)) if rc == 0 else None
             covp = os.path.join(sb.root, f"cov_{seed}.json")
             rc, _, err = cli.run("codebasin.coverage", ["compute", "-S", sb.abs(case["codebase"]), "-o", covp,
-                                                        os.path.join(sb.root, f"db_{plats[0]}.json")], sb.root, hashseed=seed)
+                                                        os.path.join(sb.root, f"db_{plats[0]}.json")], sb.root, hashseed=seed, scandir=sd)
             cov = {r["file"]: (r["id"], sorted(r["used_lines"]), sorted(r["unused_lines"])) for r in json.load(open(covp))} if rc == 0 else None
             views.append({"summary": {",".join(sorted(k)): v for k, v in rows.items()}, "total": total, "metrics": metrics,
                           "duplicates": dup_groups(out), "tree": trows, "coverage": cov})
